@@ -198,7 +198,7 @@ class Obj:
 
 class ListOf:
     def __init__(self, name, elem):
-        self.name, self.elem = name, elem
+        self.name, self.elem, self.poisoned = name, elem, False
 
 
 class Opaque:
@@ -244,6 +244,8 @@ def poison(v):
         v.poisoned = True
         for p in v.parents:
             poison(p)
+    elif isinstance(v, ListOf):
+        v.poisoned = True
     elif isinstance(v, PyTuple):
         for it in v.items:
             poison(it)
@@ -926,6 +928,9 @@ class Exec:
         lst = env.get(s.iter.id)
         if not isinstance(lst, ListOf):
             raise TranslationRefused(name, f'line {s.lineno}: loop over something that is not a list parameter')
+        if lst.poisoned:
+            raise TranslationRefused(name, f'line {s.lineno}: the list may have been changed by an untranslated '
+                                           'statement before the loop')
         for t in s.body:
             for n in ast.walk(t):
                 if isinstance(n, (ast.For, ast.While, ast.With, ast.Try, ast.FunctionDef, ast.ClassDef)):
@@ -1503,12 +1508,12 @@ SPECS = [
     dict(name='field_boundary', file='lentil/field.py', func='boundary',
          params={'fields': LISTOF(OBJ(extent=T(4)))}, rtype=TZn(4),
          doc='boundary(fields) as a function of the list [f.extent for f in fields]',
-         fallback='fold_left (fun acc e => let \'(rmin, rmax, cmin, cmax) := acc in '
-                  'let \'(frmin, frmax, fcmin, fcmax) := e in (if frmin <? rmin then frmin else rmin, '
-                  'if frmax >? rmax then frmax else rmax, if fcmin <? cmin then fcmin else cmin, '
-                  'if fcmax >? cmax then fcmax else cmax)) fields_extent '
+         fallback='fold_left src_field_boundary_step fields_extent '
                   '(9223372036854775807, -9223372036854775807, 9223372036854775807, -9223372036854775807)',
-         fallback_helpers=['Definition src_field_boundary_step (st el : Z * Z * Z * Z) : Z * Z * Z * Z := st.']),
+         fallback_helpers=['Definition src_field_boundary_step (st el : Z * Z * Z * Z) : Z * Z * Z * Z :=\n'
+                           "  let '(rmin, rmax, cmin, cmax) := st in let '(frmin, frmax, fcmin, fcmax) := el in\n"
+                           '  (if frmin <? rmin then frmin else rmin, if frmax >? rmax then frmax else rmax,\n'
+                           '   if fcmin <? cmin then fcmin else cmin, if fcmax >? cmax then fcmax else cmax).']),
     dict(name='merge_offset', file='lentil/field.py', func='_merge_offset',
          params={'fields': OPAQUE_K}, calls={'boundary(fields)': ('bnd', T(4))}, rtype=TZn(2),
          doc='_merge_offset(fields) as a function of bnd = boundary(fields)',
